@@ -407,9 +407,18 @@ func eachInstr(fn *ssa.Function, f func(ssa.Instruction)) {
 					continue
 				}
 				if c, ok := in.(*ssa.Call); ok {
-					if h := theProg.calleeOf(c); h != nil && !seen[h] && theProg.isPlainHelper(h) {
-						seen[h] = true
-						visit(h, depth+1)
+					if h := theProg.calleeOf(c); h != nil && theProg.isPlainHelper(h) {
+						if !seen[h] {
+							seen[h] = true
+							visit(h, depth+1)
+						}
+						// closures handed to the helper to be called there
+						for _, cl := range theProg.closureArgs(c, h) {
+							if !seen[cl] {
+								seen[cl] = true
+								visit(cl, depth+1)
+							}
+						}
 					}
 				}
 			}
@@ -586,6 +595,13 @@ func eachInstrCtx(fn *ssa.Function, f func(in, at ssa.Instruction, res func(ssa.
 				}
 				stack[h] = true
 				visit(h, depth+1, a, inner, stack)
+				for _, cl := range theProg.closureArgs(c, h) {
+					if !stack[cl] {
+						stack[cl] = true
+						visit(cl, depth+1, a, outer, stack)
+						delete(stack, cl)
+					}
+				}
 				delete(stack, h)
 			}
 		}
@@ -681,4 +697,51 @@ func (p *Prog) calleeOf(c ssa.CallInstruction) *ssa.Function {
 		}
 	}
 	return nil
+}
+
+// closureArgs: the closures a call passes to a plain helper in parameters the helper only ever
+// calls (`c.timed(t, func() error {…})` with `err := do()` inside timed): for the analysis the
+// closure body is in-line code of the calling function, executed where the helper calls it.
+func (p *Prog) closureArgs(c ssa.CallInstruction, h *ssa.Function) map[*ssa.Parameter]*ssa.Function {
+	out := map[*ssa.Parameter]*ssa.Function{}
+	args := c.Common().Args
+	for i, prm := range h.Params {
+		if i >= len(args) {
+			break
+		}
+		if _, isSig := prm.Type().Underlying().(*types.Signature); !isSig {
+			continue
+		}
+		mc, ok := p.canon(args[i]).(*ssa.MakeClosure)
+		if !ok {
+			continue
+		}
+		cl, ok := mc.Fn.(*ssa.Function)
+		if !ok || !p.calledOnly(prm) {
+			continue
+		}
+		out[prm] = cl
+	}
+	return out
+}
+
+// calledOnly: every use of the func-typed parameter is a plain call of it.
+func (p *Prog) calledOnly(prm *ssa.Parameter) bool {
+	if prm.Referrers() == nil {
+		return false
+	}
+	n := 0
+	for _, r := range *prm.Referrers() {
+		switch u := r.(type) {
+		case *ssa.Call:
+			if u.Common().Value != ssa.Value(prm) {
+				return false
+			}
+			n++
+		case *ssa.DebugRef:
+		default:
+			return false
+		}
+	}
+	return n > 0
 }
